@@ -36,6 +36,8 @@ def run(ctx):
         real = [m for m in p.modules[1:] if m is not None]
         if real and i % 4 == 0:      # a synth file written for a module that lives (linked) in a project
             add("p%d.synth-of-attached" % i, api.Synth(rnd.choice(real)))
+    for k in range(1 if q else 3):           # scale: 256+ modules and patterns, 100+ links on one module, a 16+ track pattern
+        add("large%d" % k, gen.large_project(rnd, spec))
     for t in sorted(cl):
         for k in range(2 if q else 30):
             add("%s#%d" % (t, k), api.Synth(gen.rand_module(rnd, cl[t], spec, depth=1, in_project=False)))
